@@ -112,6 +112,11 @@ def evaluate(desc, res):
     for p in res["after"]:
         if p not in inputs and p not in okn and not belongs_to_dirty(desc, p):
             add("stray-file-created", p, {"op": "present-at-end"})
+    # by-product monitor on the read seam (clauses 1-2; not part of the claim, reported when seen)
+    for rec in res["records"]:
+        if rec[0] == "out" and rec[2] == "sim" and rec[3].startswith("lossless-fail "):
+            w = rec[3].rstrip("\n").split(" ", 2)
+            add("read-not-lossless", os.path.normpath(w[1]), {"what": w[2] if len(w) > 2 else ""})
     allb = {r[0]: list(r[7]) for r in runner.RULES}
     for v in V:
         # the rules whose fix() changed the file this violation is about (its own name, or the
@@ -170,6 +175,87 @@ def gen_a(seed):
     if rng.random() < 0.08:
         d["argv"] = ["--force_fix"] + d["argv"]
     return d
+
+
+ODD = [b"\x0c", b"\x0b", b"\x1c", b"\x1d", b"\x1e", b"\xc2\x85", b"\xe2\x80\xa8", b"\xe2\x80\xa9", b"\t", b"\xc2\xa0", b"\xef\xbb\xbf", b"\xe2\x82\xac", b"\xf0\x9f\x98\x80"]
+
+
+def read_stress(rng, data):
+    """Inputs that exercise the read path (S1): encodings, line-end conventions, buffer boundaries.
+    Only comments and line terminators are touched, so an accepted design stays accepted."""
+    tags = []
+    lines = data.replace(b"\r\n", b"\n").replace(b"\r", b"\n").split(b"\n")
+    final_nl = lines and lines[-1] == b""
+    if final_nl:
+        lines.pop()
+    enc = rng.choice(["utf8", "utf8", "latin1", "latin1", "ascii"])
+    n_ins = rng.randint(1, 4)
+    for j in range(n_ins):
+        # positions: anywhere, or biased to the tail (beyond the first 8 KiB / 64 KiB of a long file)
+        i = rng.randrange(len(lines) + 1) if rng.random() < 0.5 else len(lines) - rng.randrange(min(len(lines), 4) or 1)
+        if enc == "latin1":
+            c = b"-- caf\xe9 \xb5s \xdf" + bytes([rng.randrange(0xA0, 0x100)])
+        elif enc == "utf8":
+            c = b"-- " + rng.choice(ODD) + b" x " + rng.choice(ODD)
+        else:
+            c = b"-- plain"
+        lines.insert(max(0, i), c)
+    tags.append(enc)
+    if rng.random() < 0.3:
+        # one very long comment: a single line larger than the 8 KiB text buffer
+        lines.insert(rng.randrange(len(lines) + 1), b"-- " + b"x" * rng.choice([8189, 8192, 9000, 70000]))
+        tags.append("long-line")
+    if enc == "utf8" and rng.random() < 0.5:
+        # a multi-byte character straddling byte offset 8192 (or 65536)
+        tot, k = 0, None
+        for k, ln in enumerate(lines):
+            tot += len(ln) + 1
+            if tot > 600:
+                break
+        target = rng.choice([8192, 8192, 65536])
+        pre = sum(len(ln) + 1 for ln in lines[:k])
+        pad = target - pre - 3 - rng.choice([1, 2])
+        if pad > 0:
+            lines.insert(k, b"--" + b"=" * pad + b"\xe2\x82\xac" + b"!")
+            tags.append("straddle%d" % target)
+    le = rng.choice(["lf", "lf", "crlf", "cr", "mixed"])
+    seps = {"lf": [b"\n"], "crlf": [b"\r\n"], "cr": [b"\r"], "mixed": [b"\n", b"\r\n", b"\r"]}[le]
+    out = b""
+    for ln in lines:
+        out += ln + rng.choice(seps)
+    tags.append(le)
+    r = rng.random()
+    if r < 0.2:
+        out = out[: len(out) - (2 if out.endswith(b"\r\n") else 1)]
+        tags.append("nofinalnl")
+    elif r < 0.3:
+        out += rng.choice(seps)
+        tags.append("extra-final-nl")
+    return tags, out
+
+
+def gen_r(seed):
+    """Class (a) runs (no --fix) on inputs that stress the read path; the read monitor rides along."""
+    rng = substream(seed, "c04r")
+    sandbox, names, meta = [], [], []
+    for i in range(rng.randint(1, 3)):
+        name = "src/r%d.vhd" % i
+        label, data = workload.pick_bytes(rng, rng.choice(["small"] * 3 + ["mid"] * 3 + ["big"] * 3 + ["huge"]))
+        tags, data = read_stress(rng, data)
+        sandbox.append(workload.sb_entry(name, data, rng.choice(workload.MODES)))
+        names.append(name)
+        meta.append({"path": name, "from": label, "tags": tags, "size": len(data), "digest": wire.digest(data)})
+    argv = ["-p", str(rng.choice([1, 1, 2, 3]))]
+    if rng.random() < 0.4:
+        argv.append("-ap")
+    argv += ["-of", rng.choice(["vsg", "syntastic", "summary"])]
+    style = rng.choice(workload.STYLES)
+    if style:
+        argv += ["--style", style]
+    if rng.random() < 0.3:
+        argv += ["--json", "out/j.json"]
+    argv += ["-f"] + names
+    return _desc(seed, rng, sandbox, argv, {"class": "a", "read_focus": True, "files": meta, "style": style})
 
 
 def gen_b(seed):
@@ -422,11 +508,11 @@ def judge(desc, env):
 
 def plan(tier, seed):
     if tier == "quick":
-        na, nb, nc, nd = 250, 90, 70, 40
+        na, nb, nc, nd, nr = 250, 90, 70, 40, 60
     else:
-        na, nb, nc, nd = 6000, 2500, 1500, 1000
+        na, nb, nc, nd, nr = 6000, 2500, 1500, 1000, 2500
     jobs = []
-    for m, n in (("a", na), ("b", nb), ("c", nc), ("d", nd)):
+    for m, n in (("a", na), ("b", nb), ("c", nc), ("d", nd), ("r", nr)):
         for i in range(n):
             jobs.append({"prop": PROP, "mode": m, "i": i, "seed": H(seed, tier, PROP, m, i)})
     jobs += common.regress_jobs(PROP, 4)
@@ -447,13 +533,15 @@ def run_job(job, env):
         d = gen_a(seed)
     elif mode == "b":
         d = gen_b(seed)
+    elif mode == "r":
+        d = gen_r(seed)
     else:
         d = gen_d(seed, env) if mode == "d" else gen_c(seed, env)
         if d is None:
             out.skipped("no-clean-file-obtained")
             return out.done()
     d["hashseed_class"] = job.get("class", 0)
-    if mode == "a":
+    if mode in ("a", "r"):
         # read-side faults: the clause must hold for *any* run without --fix
         rng = substream(seed, "faults")
         if rng.random() < 0.3:
